@@ -65,6 +65,7 @@ partial def progOfJ : J → Option Prog
   | .arr [.str "seq", p, q] => do pure (.seq (← progOfJ p) (← progOfJ q))
   | .arr [.str "try", p] => do pure (.try_ (← progOfJ p))
   | .arr [.str "probe", .str n] => (mgrOfName n).map .probe
+  | .arr [.str "call", .str n, .str c, p] => do pure (.call (← mgrOfName n) c (← progOfJ p))
   | .arr [.str "scope", .str n, a, p] => do pure (.scope (← mgrOfName n) (← argOfJ a) (← progOfJ p))
   | _ => none
 
